@@ -224,14 +224,36 @@ def _fb_spec(c, MIN, MAX, F, G, Wd, N, B):
 
 def _fbd_params(c):
     N, B = c.int('N'), c.int('B')
-    err = c.choice('errors')
+    err, wid = c.choice('errors'), c.choice('widths')
     return dict(self=ObjSpec('FluxBinner', _wngrid=c.array('g', (B,)), _wngrid_width=c.array('w', (B,))), wngrid=c.array('wn', (N,)),
-                spectrum=c.array('f', (N,)), grid_width=c.array('wd', (N,)), error=c.array('e', (N,)) if err else None)
+                spectrum=c.array('f', (N,)), grid_width=c.array('wd', (N,)) if wid == 'given' else None, error=c.array('e', (N,)) if err else None)
+
+
+def _derived_width(c, wn, N, j):
+    """full width compute_bin_edges gives bin j of an ascending grid: |e_{j+1} - e_j| with edges at the mid-points"""
+    def edge(i):
+        mid = (wn[i - 1] + wn[i]) / 2
+        first = wn[0] - (wn[1] - wn[0]) / 2
+        last = wn[N - 1] + (wn[N - 1] - wn[N - 2]) / 2
+        if c.mode == 'conc':
+            return first if i == 0 else (last if i == N else mid)
+        return z3.If(to_int(i) == 0, first, z3.If(to_int(i) == to_int(N), last, mid))
+    return c.Abs(edge(j + 1) - edge(j))
 
 
 def _fbd_pre(c, v):
     N, B = c.Len(v.wngrid), c.Len(v.self._wngrid)
     wn, wd = v.wngrid, v.grid_width
+    if wd is None:
+        # widths derived from the grid itself (the usual call on a model's native grid): ascending input, and the derived
+        # bin edges ordered like the centres (constant-R, linear, logarithmic grids; not wildly irregular ones)
+        W = lambda j: _derived_width(c, wn, N, j)
+        return {'sizes': c.And(N >= 2, B >= 0, c.Len(v.spectrum) == N, c.Len(v.self._wngrid_width) == B,
+                               (c.Len(v.error) == N) if v.error is not None else True),
+                'native_grid_ascending': c.Forall2((0, N), (0, N), lambda i, j: c.Implies(i < j, wn[i] < wn[j])),
+                'derived_bin_edges_ordered_like_the_centres': c.Forall(0, N - 1, lambda j: c.And(
+                    wn[j] - W(j) / 2 <= wn[j + 1] - W(j + 1) / 2, wn[j] + W(j) / 2 <= wn[j + 1] + W(j + 1) / 2)),
+                'target_widths_positive': c.Forall(0, B, lambda q: v.self._wngrid_width[q] > 0)}
     return {'sizes': c.And(N >= 1, B >= 0, c.Len(v.spectrum) == N, c.Len(wd) == N, c.Len(v.self._wngrid_width) == B,
                            (c.Len(v.error) == N) if v.error is not None else True),
             'native_widths_non_negative': c.Forall(0, N, lambda i: wd[i] >= 0),
@@ -246,6 +268,14 @@ def _fbd_pre(c, v):
 def _fbd_sorted(c, v0):
     pf, qf = c.last_perm
     wn, wd, f = v0.wngrid, v0.grid_width, v0.spectrum
+    if wd is None:
+        N = c.Len(wn)
+
+        class _W:
+            def __getitem__(s_, j):
+                return _derived_width(c, wn, N, j)
+        wd = _W()
+        pf = lambda j: j                 # ascending input: the sorting permutation is the identity (argsort model fact)
 
     class _A:
         def __init__(s_, fn):
@@ -270,7 +300,9 @@ def _fbd_inv(c, v, v0, k):
          'target_bins': c.Forall(0, B, lambda q: c.And(v.new_spec_wn_min[q] == S['lo'](q), v.new_spec_wn_max[q] == S['hi'](q))),
          'native_bins': c.Forall(0, N, lambda j: c.And(MIN[j] == v0.wngrid[sort[j]] - v0.grid_width[sort[j]] / 2,
                                                        MAX[j] == v0.wngrid[sort[j]] + v0.grid_width[sort[j]] / 2,
-                                                       F[j] == v0.spectrum[sort[j]])),
+                                                       F[j] == v0.spectrum[sort[j]])) if v0.grid_width is not None else
+         c.Forall(0, N, lambda j: c.And(sort[j] == j, MIN[j] == v0.wngrid[j] - _derived_width(c, v0.wngrid, N, j) / 2,
+                                        MAX[j] == v0.wngrid[j] + _derived_width(c, v0.wngrid, N, j) / 2, F[j] == v0.spectrum[j])),
          'native_bins_sorted': c.And(c.Forall(0, N - 1, lambda j: c.And(MAX[j] <= MAX[j + 1], MIN[j] <= MIN[j + 1])),
                                      c.Forall(0, N, lambda j: MIN[j] <= MAX[j])),
          'todo': c.Forall(k, B, lambda q: BS[q] == 0)}
@@ -312,12 +344,25 @@ def _fbd_post(c, v0, v1, r):
     if c.mode == 'conc':
         import numpy as np
         p = np.argsort(np.array(v0.wngrid, dtype=float))
-        wn, wd, f = (np.array(x, dtype=float)[p] for x in (v0.wngrid, v0.grid_width, v0.spectrum))
+        if v0.grid_width is None:
+            wn0 = list(v0.wngrid)
+            wdl = [_derived_width(c, wn0, N, j) for j in range(N)]
+        else:
+            wdl = v0.grid_width
+        wn, wd, f = (np.array(x, dtype=float)[p] for x in (v0.wngrid, wdl, v0.spectrum))
 
         class _L(list):
             pass
         MIN, MAX, F = list(wn - wd / 2), list(wn + wd / 2), list(f)
         E = None if v0.error is None else list(np.array(v0.error, dtype=float)[p])
+    elif v0.grid_width is None and c.mode == 'sym':
+        # derived widths: the statement is made in two steps -- the formula over the function's own sorted bin arrays (ghost
+        # access to the locals), and those arrays being the documented bins (clause native_bins_are_the_documented_ones);
+        # equal bodies give equal sums (lemma sum_congruence)
+        from pyvc.core import View
+        loc = View(c, c.raw['state'].env, c.raw['state'].heap)
+        MIN, MAX, F = loc.old_spect_min, loc.old_spect_max, loc.old_spect_flux
+        E = loc.old_spect_err if v0.error is not None else None
     else:
         MIN, MAX, F = _fbd_sorted(c, v0)
         E = None
@@ -350,6 +395,11 @@ def _fbd_post(c, v0, v1, r):
                     ok = ok and abs(r[2][q] - want) <= 1e-9 * max(1.0, abs(want))
             d['errors_with_the_same_weights_in_quadrature'] = ok
         return d
+    if v0.grid_width is None:
+        wn = v0.wngrid
+        d['native_bins_are_the_documented_ones'] = c.Forall(0, N, lambda j: c.And(
+            MIN[j] == wn[j] - _derived_width(c, wn, N, j) / 2, MAX[j] == wn[j] + _derived_width(c, wn, N, j) / 2, F[j] == v0.spectrum[j],
+            (E[j] == v0.error[j]) if E is not None else True))
     d['overlap_weighted_mean_of_the_window'] = c.Forall(0, B, lambda q: c.Implies(meets(q), out[q] == S['val'](q)))
     if E is not None:
         d['errors_with_the_same_weights_in_quadrature'] = c.Forall(0, B, lambda q: c.Implies(meets(q), r[2][q] == S['noise'](q, E)))
@@ -380,14 +430,23 @@ def _fbd_gen(rng):
     wn = [(bins[i][0] + bins[i][1]) / 2 for i in order]
     wd = [bins[i][1] - bins[i][0] for i in order]
     g = sorted(rng.uniform(50, 1100) for _ in range(B))
-    return dict(N=N, B=B, wn=wn, wd=wd, f=[rng.uniform(0, 1) for _ in range(N)], g=g, w=[rng.uniform(1, 300) for _ in range(B)],
-                errors=rng.random() < 0.5, e=[rng.uniform(0.01, 0.2) for _ in range(N)])
+    d = dict(N=N, B=B, wn=wn, wd=wd, f=[rng.uniform(0, 1) for _ in range(N)], g=g, w=[rng.uniform(1, 300) for _ in range(B)],
+             errors=rng.random() < 0.5, e=[rng.uniform(0.01, 0.2) for _ in range(N)], widths='given')
+    if rng.random() < 0.5:
+        N = max(N, 2)
+        kind = rng.choice(['linear', 'constR', 'log'])
+        if kind == 'linear':
+            wn = [200.0 + 37.5 * i for i in range(N)]
+        else:
+            wn = [200.0 * (1.0 + (0.01 if kind == 'constR' else 0.3)) ** i for i in range(N)]
+        d.update(N=N, wn=wn, widths='derived', f=[rng.uniform(0, 1) for _ in range(N)], e=[rng.uniform(0.01, 0.2) for _ in range(N)])
+    return d
 
 
 FBD = Unit('C05', FB + 'bindown', _fbd_params, pre=_fbd_pre, post=_fbd_post, invariants={0: _fbd_inv}, native=_fbd_native, gen=_fbd_gen,
-           cases=[{'errors': False}, {'errors': True}],
+           cases=[{'errors': e, 'widths': w} for e in (False, True) for w in ('given', 'derived')],
            bounds=[dict(N=2, B=1)], safety=('index', 'sorted'), timeout_ms=30000, short='FluxBinner.bindown',
-           doc='1-D spectrum, native widths given, with and without errors: for every target bin the mean of the native values in the searchsorted window '
+           doc='1-D spectrum, native widths given (any order of the native points) or derived from an ascending grid by compute_bin_edges (by contract), with and without errors: for every target bin the mean of the native values in the searchsorted window '
                'weighted by the overlap lengths (zero when the bin does not meet the native grid), any order of the native points')
 
 
